@@ -278,10 +278,8 @@ Definition oracle_conversion (x : outcome * outcome) : bool :=
   end.
 Definition oracle_same (x : outcome * outcome) : bool := outcome_eqb (fst x) (snd x).
 
-(* bit 0: model and implementation disagree; bit 1: the observed outcome is not documented *)
+(* bit 0: model and implementation disagree; bit 1: the observed outcome is not documented
+   (the guard bits of the C15 theorem are added by Proofs/ParserDoc.v: c15_code_guarded) *)
 Definition c15_code (x : corr_case) : N :=
   let '(_, _, _, _, _, obs) := x in
   (if agree_parse x then 0 else 1) + (if outcome_documented obs then 0 else 2).
-
-(* well-formedness conditions of exported universes that the C15 theorem assumes (checked on
-   every universe the real XmlContext produced) are defined with the theorem: Proofs/ParserDoc.v *)
